@@ -11,6 +11,7 @@ import (
 	"fmt"
 	"os"
 	"sort"
+	"strings"
 	"sync"
 
 	"github.com/nspcc-dev/neo-go/pkg/util"
@@ -31,9 +32,28 @@ const (
 
 type sweepCase struct {
 	Kind  string `json:"kind"`
-	End   int    `json:"buffer_end"`  // file offset where the scan buffer ends when the swept prefix is looked at
-	P     int    `json:"prefix_at"`   // file offset of the swept member prefix
-	Sizes []int  `json:"member_sizes"` // member data sizes in file order
+	End   int    `json:"buffer_end"`            // file offset where the scan buffer ends when the swept prefix is looked at
+	P     int    `json:"prefix_at"`             // file offset of the swept member prefix
+	Sizes []int  `json:"member_sizes"`          // member data sizes in file order
+	Only  int    `json:"only_member,omitempty"` // index+1 of the member the case is about (0: all)
+}
+
+// fpKind is Kind without the "(N buffered)" detail (one root cause, one fingerprint).
+func (c sweepCase) fpKind() string {
+	if i := strings.IndexByte(c.Kind, '('); i >= 0 {
+		if j := strings.IndexByte(c.Kind, ')'); j > i {
+			return c.Kind[:i] + c.Kind[j+1:]
+		}
+	}
+	return c.Kind
+}
+
+// fpClass is class() with the two fully-buffered classes merged (fingerprints).
+func (c sweepCase) fpClass() string {
+	if k := c.class(); k != "prefix-ends-at-buffer-end" {
+		return k
+	}
+	return "prefix-inside-buffer"
 }
 
 func (c sweepCase) class() string {
@@ -109,7 +129,7 @@ func sweepCases(quick bool) []sweepCase {
 				return // not a buildable object size / low byte must be non-zero
 			}
 		}
-		cs = append(cs, sweepCase{kind, end, p, sizes})
+		cs = append(cs, sweepCase{Kind: kind, End: end, P: p, Sizes: sizes})
 	}
 	for _, end := range []int{scanBuf, 2 * scanBuf} {
 		for p := end - sweepLo; p <= end+sweepHi; p++ {
@@ -131,7 +151,69 @@ func sweepCases(quick bool) []sweepCase {
 	for p := p2 + scanBuf - sweepLo; p <= p2+scanBuf+sweepHi; p++ {
 		add("3-members-after-seek", p2+scanBuf, p, p2-memberPfx, p-p2-memberPfx, tail)
 	}
-	_ = quick
+	return append(cs, streamedSweepCases(quick)...)
+}
+
+// streamedSweepCases: the swept member is itself streamed (longer than the read window B, or than the caller
+// buffer 2B) and sits in last or middle position; its 38-byte prefix takes every alignment relative to the
+// window end (0..38 prefix bytes inside the window, plus margins). Only the reads of the swept member are the
+// point here (Only = its index+1); the leading members have the same sizes as in the small-tail sweep.
+func streamedSweepCases(quick bool) []sweepCase {
+	const small, first = 0x141, 0x9b
+	lo := memberPfx + 2
+	bigs := []int{scanBuf + 0x141}
+	ends := []int{scanBuf}
+	if !quick {
+		lo = sweepLo
+		bigs = append(bigs, 2*scanBuf+0x19b)
+		ends = append(ends, 2*scanBuf)
+	}
+	var cs []sweepCase
+	add := func(kind string, end, p, only int, sizes ...int) {
+		for _, s := range sizes {
+			if s < 110 || s&0xff == 0 {
+				return
+			}
+		}
+		cs = append(cs, sweepCase{Kind: kind, End: end, P: p, Sizes: sizes, Only: only})
+	}
+	for bi, big := range bigs {
+		sfx := []string{"/streamed-member", "/member>2B"}[bi]
+		for _, end := range ends {
+			for p := end - lo; p <= end+sweepHi; p++ {
+				add("2-members"+sfx, end, p, 2, p-memberPfx, big)
+				if bi == 0 {
+					add("3-members-middle"+sfx, end, p, 2, p-memberPfx, big, small)
+					add("3-members"+sfx, end, p, 3, first, p-2*memberPfx-first, big)
+				}
+			}
+		}
+		if quick { // the caller-buffer sized member: first window only, 2 members
+			continue
+		}
+	}
+	if quick {
+		big := 2*scanBuf + 0x19b
+		for p := scanBuf - lo; p <= scanBuf+sweepHi; p++ {
+			add("2-members/member>2B", scanBuf, p, 2, p-memberPfx, big)
+		}
+	}
+	// after a prefix that straddles the first window end (the refill keeps its buffered part, so the buffer
+	// holds more than B bytes): full window, the swept member's data may start beyond B inside the buffer
+	big := scanBuf + 0x141
+	for _, rem := range []int{19, 37} {
+		if quick && rem != 37 {
+			continue
+		}
+		p2 := scanBuf - rem
+		for p := 2*scanBuf - sweepLo; p <= 2*scanBuf+sweepHi; p++ {
+			add(fmt.Sprintf("3-members-after-straddling-prefix(%d buffered)/streamed-member", rem), 2*scanBuf, p, 3, p2-memberPfx, p-p2-memberPfx, big)
+		}
+	}
+	p2 := scanBuf + 5003
+	for p := p2 + scanBuf - lo; p <= p2+scanBuf+sweepHi; p++ {
+		add("3-members-after-seek/streamed-member", p2+scanBuf, p, 3, p2-memberPfx, p-p2-memberPfx, big)
+	}
 	return cs
 }
 
@@ -147,7 +229,7 @@ func runSweepCase(c sweepCase) (string, string) {
 	d := fmt.Sprintf("%s/sweep%d", dirSeq.base, dirSeq.n)
 	dirSeq.Unlock()
 	s := &sys{cfg: config{depth: 1, sel: sel}, ops: []op{{opPutBatch, sel}}, dir: d, items: items, present: make([]bool, len(items)),
-		extra: ",sweep:" + c.Kind + ":" + c.class()}
+		extra: ",sweep:" + c.fpKind() + ":" + c.fpClass()}
 	defer s.Close()
 	t := s.open()
 	t.Close()
